@@ -132,6 +132,9 @@ def execute(sc):
     s2 = scen.final_scale2(b, hist)
     if smoother:
         sm, G = scen.smooth_nodes(nodes)
+    # Nordsieck yardstick per checkpoint: the size of the enclosing step (a global mean step would overweight the
+    # high coefficients of checkpoints that live in a much smaller step, e.g. right after a small dt0)
+    hloc = [float(hs[min(max(k, 0), len(hs) - 1)]) for (_, k) in cls]
     ref = []
     for i, t in enumerate(B):
         nd = nodes[idx[i]]
@@ -150,12 +153,12 @@ def execute(sc):
         for i, t in enumerate(B):
             m, P, ns, osc = values_at(b, rB.sol, i)
             mr, Pr, Psc = ref[i]
-            em = compare.mean_err(m, mr, q, d, hmean)
+            em = compare.mean_err(m, mr, q, d, hloc[i])
             stats["worst_ref_mean"] = max(stats.get("worst_ref_mean", 0.0), em)
             if em > tol_m_ref and not ill:
                 viol.append({"inv": "INTERP-mean", "msg": f"value at checkpoint {i} (t={t:.6g}, {cls[i][0]}, class {classes.get(t, 'end')}) differs from the exact interpolation of the step sequence: {em:.2e}"})
             if not ill and onp.max(onp.abs(onp.diag(Psc))) > 0:
-                ec = compare.cov_err(P, Pr, Psc, (q, d, hmean))
+                ec = compare.cov_err(P, Pr, Psc, (q, d, hloc[i]))
                 stats["worst_ref_cov"] = max(stats.get("worst_ref_cov", 0.0), ec)
                 if ec > tol_c_ref:
                     viol.append({"inv": "INTERP-cov", "msg": f"covariance at checkpoint {i} (t={t:.6g}, {cls[i][0]}) differs from the exact interpolation: {ec:.2e} (tol {tol_c_ref:.1e})"})
@@ -171,9 +174,9 @@ def execute(sc):
                 i = B.index(t)
                 m1, P1, n1, o1 = values_at(b, r.sol, j)
                 m2, P2, n2, o2 = values_at(b, rB.sol, i)
-                em = compare.mean_err(m1, m2, q, d, hmean)
+                em = compare.mean_err(m1, m2, q, d, hloc[i])
                 Psc = ref[i][2]
-                ec = compare.cov_err(P1, P2, Psc, (q, d, hmean)) if onp.max(onp.abs(onp.diag(Psc))) > 0 else float(onp.max(onp.abs(P1 - P2)))
+                ec = compare.cov_err(P1, P2, Psc, (q, d, hloc[i])) if onp.max(onp.abs(onp.diag(Psc))) > 0 else float(onp.max(onp.abs(P1 - P2)))
                 stats["worst_subset_mean"] = max(stats.get("worst_subset_mean", 0.0), em)
                 stats["worst_subset_cov"] = max(stats.get("worst_subset_cov", 0.0), ec)
                 tol_sub_c = tol_sub_c0 * (10 if smoother else 1)
@@ -209,8 +212,8 @@ def execute(sc):
                 est = b2.solver.offgrid_marginals(jnp.asarray(t), solution=r2.sol)
                 m1, P1 = embed.normal_np(est)
                 m2, P2, _, _ = values_at(b, rB.sol, i)
-                em = compare.mean_err(m1, m2, q, d, hmean)
-                ec = compare.cov_err(P1, P2, ref[i][2], (q, d, hmean))
+                em = compare.mean_err(m1, m2, q, d, hloc[i])
+                ec = compare.cov_err(P1, P2, ref[i][2], (q, d, hloc[i]))
                 n_off += 1
                 stats["worst_offgrid_mean"] = max(stats.get("worst_offgrid_mean", 0.0), em)
                 if em > tol_m_ref and not ill:
